@@ -1289,7 +1289,7 @@ int main(int argc, char **argv){
                 else if (which == "candl_ll_size") g.getCandidateConstructionPoints(0.1, refine_classic, 0, std::vector<int>((size_t) d + 1, 1));
                 else if (which == "loadc_not_constructing") g.loadConstructedPoints(std::vector<double>((size_t) d, 0.0), std::vector<double>((size_t) std::max(outs, 1), 1.0));
                 else if (which == "loadc_ysize") g.loadConstructedPoints(std::vector<double>((size_t) 2 * d, 0.0), std::vector<double>((size_t) std::max(outs, 1), 1.0));
-                else if (which == "setcoef_size") g.setHierarchicalCoefficients(std::vector<double>((size_t) g.getNumPoints() * std::max(outs, 1) + 1, 1.0));
+                else if (which == "setcoef_size") g.setHierarchicalCoefficients(std::vector<double>((size_t) g.getNumPoints() * std::max(outs, 1) * (g.isFourier() ? 2 : 1) + 1, 1.0));
                 else if (which == "copy_range_neg") g.copyGrid(slots[3 - o].g, -1, 1);
                 else if (which == "copy_range_big") g.copyGrid(slots[3 - o].g, 0, slots[3 - o].g.getNumOutputs() + 2);
                 else if (which == "copy_range_empty") g.copyGrid(slots[3 - o].g, 1, 1);
@@ -1325,6 +1325,9 @@ int main(int argc, char **argv){
         }catch(std::exception &e){ res = std::string("other:") + typeid(e).name(); what = e.what();
         }catch(...){ res = "other:unknown"; }
         if (cmd == "make" && res == "ok") slots[o].obase = 0;
+        // the grid outgrew the size the judge (and the observers' tolerances) are made for: the scenario ends before this event
+        for(int k=1; k<=2; k++) if (slots[k].g.getNumLoaded() + slots[k].g.getNumNeeded() > max_points) skip_rest = true;
+        if (skip_rest) continue;
         args += "}";
         std::string obs = "{";
         bool firsto = true;
